@@ -87,8 +87,8 @@ CFG = dict(
                          "mrtd:td-rib-multi-entry": 300, "mrtd:td-rib-nonzero-peer-index": 450, "mrtd:td-rib-entries": 1100,
                          "mrtd:td-ipv4-prefix-v6-nexthop": 140}),
     # the release shard gets other seeds than the debug shard (seed_offset) so the two explore different inputs
-    quick=[e1("all", "c19", "debug", 1, 40), dict(e1("all", "c19", "release", 1, 40), seed_offset=500),
-           e2("bmpd", "bmp::verif::c19b::run", 1, 40), e2("mrtd", "mrt::verif::c19m::run", 1, 30)],
+    quick=[e1("all", "c19", "debug", 1, 120), dict(e1("all", "c19", "release", 1, 120), seed_offset=500),
+           e2("bmpd", "bmp::verif::c19b::run", 1, 120), e2("mrtd", "mrt::verif::c19m::run", 1, 120)],
     thorough=[e1("bmp", "c19", "release", 5, 200, part="bmp"),
               dict(e1("mrt", "c19", "release", 3, 200, part="mrt"), seed_offset=200),
               dict(e1("td", "c19", "release", 2, 200, part="td"), seed_offset=300),
